@@ -125,6 +125,51 @@ pub fn run(ctx: &Ctx) -> Result<()> {
 		});
 		*stats.entry("task_reads".into()).or_insert(0) += per * ntasks;
 	}
+	// reader level: concurrent single-tile lookups on one freshly opened (cold) container reader
+	{
+		use versatiles_container::{get_reader, write_to_filename};
+		use versatiles_core::types::*;
+		let rt = tokio::runtime::Builder::new_multi_thread().worker_threads(8).enable_all().build()?;
+		let mut rng = Rng::new(ctx.seed ^ 0x13);
+		// tiles in many blocks / leaf directories, every payload names its coordinate
+		let mut tiles: Vec<((u8, u32, u32), Vec<u8>)> = vec![];
+		for b in 0..24u32 { for k in 0..6u32 { let (x, y) = ((b % 6) * 256 + rng.below(256) as u32, (b / 6) * 256 + rng.below(256) as u32); let _ = k;
+			let mut d = format!("tile 12/{x}/{y} ").into_bytes(); let n = 20 + rng.below(1500) as usize; d.extend(rng.bytes(n)); tiles.push(((12, x, y), d)); } }
+		let expected: std::collections::HashMap<(u8, u32, u32), Vec<u8>> = tiles.iter().cloned().collect();
+		let keys: Arc<Vec<(u8, u32, u32)>> = Arc::new(expected.keys().cloned().collect());
+		let expected = Arc::new(expected);
+		let rounds = if ctx.thorough { 400 } else { 40 };
+		for container in ["versatiles", "pmtiles", "tar", "mbtiles"] {
+			let p = std::fs::canonicalize(&ctx.out)?.join(format!("conc.{container}"));
+			let mut src = crate::memsrc::MemSource::new("mem", tiles.clone(), TileFormat::PNG, TileCompression::Uncompressed);
+			rt.block_on(write_to_filename(&mut src, p.to_str().unwrap()))?;
+			let mut wrong = 0u64; let mut first: Option<String> = None; let mut lookups = 0u64;
+			for round in 0..rounds {
+				let reader: Arc<Box<dyn TilesReaderTrait>> = Arc::new(rt.block_on(get_reader(p.to_str().unwrap()))?);   // cold caches
+				let res: Vec<Option<String>> = rt.block_on(async {
+					let mut hs = Vec::new();
+					for t in 0..16u64 {
+						let (reader, keys, expected) = (reader.clone(), keys.clone(), expected.clone());
+						let seed = ctx.seed * 31 + round as u64 * 17 + t;
+						hs.push(tokio::spawn(async move {
+							let mut rng = Rng::new(seed); let mut bad = None;
+							for _ in 0..12 { let c = keys[rng.below(keys.len() as u64) as usize];
+								let r = reader.get_tile_data(&TileCoord3 { x: c.1, y: c.2, z: c.0 }).await;
+								let ok = matches!(&r, Ok(Some(b)) if b.as_slice() == expected[&c].as_slice());
+								if !ok && bad.is_none() { bad = Some(format!("{}/{}/{} -> {}", c.0, c.1, c.2, match &r { Ok(Some(b)) => format!("{} bytes of other content", b.len()), Ok(None) => "None".into(), Err(e) => format!("error {e}") })); } }
+							bad
+						}));
+					}
+					let mut v = vec![]; for h in hs { v.push(h.await.unwrap_or(Some("task panicked".into()))); } v
+				});
+				lookups += 16 * 12;
+				for r in res.into_iter().flatten() { wrong += 1; if first.is_none() { first = Some(r); } }
+			}
+			*stats.entry(format!("reader_lookups_{container}")).or_insert(0) += lookups;
+			if wrong > 0 { viol.push(("concurrent-lookup".into(), format!("{container}: 16 tasks x 12 get_tile_data calls on one freshly opened reader (8 worker threads)"), format!("{wrong} tasks got a wrong answer, first: {}", first.unwrap_or_default()))); }
+			let _ = std::fs::remove_file(&p);
+		}
+	}
 	let nbad = bad.load(Ordering::SeqCst);
 	stats.insert("wrong_reads".into(), nbad);
 	if nbad > 0 {
